@@ -405,13 +405,6 @@ def blank_case(rng):
 
 
 def cases(rng, tier):
-    nx = {"quick": (330, 170, 110), "thorough": (9000, 4000, 2500), "search": (400, 200, 100)}[tier]
-    for _ in range(nx[0]):
-        yield opts_case(rng)
-    for _ in range(nx[1]):
-        yield args_case(rng)
-    for _ in range(nx[2]):
-        yield blank_case(rng)
     if tier != "search":
         for h in HAND:
             yield mk("adversarial", h, op="conv")
@@ -434,6 +427,14 @@ def cases(rng, tier):
             yield tree_case(rng, "cmtafter")
         else:
             yield soup_case(rng)
+    # the option / argument streams come last: the cases above are, seed by seed, the ones generated before they existed
+    nx = {"quick": (330, 170, 110), "thorough": (9000, 4000, 2500), "search": (400, 200, 100)}[tier]
+    for _ in range(nx[0]):
+        yield opts_case(rng)
+    for _ in range(nx[1]):
+        yield args_case(rng)
+    for _ in range(nx[2]):
+        yield blank_case(rng)
 
 
 def neighbours(case, rng):
@@ -647,6 +648,8 @@ def oracle_x(case, ans):
             return [f"{sub}: valid arguments rejected with {ans}"]
         return []
     # kind == "opts" / "blankstmt": a well-formed tree
+    if not ans.startswith(("ok|", "err:")):
+        return [f"{sub}: {ans}"]
     tree = case["tree"]
     if kind == "blankstmt" and case.get("ign"):
         tree = _without_blank(tree)      # ignore_blank_lines: as if the lone ';' statements were not there
@@ -666,7 +669,7 @@ def oracle_x(case, ans):
         return [f"{sub} {({k: case[k] for k in ('stop', 'semi_end', 'ign', 'factory', 'delims') if k in case})}: texts differ at "
                 f"line {i}: got {got[i:i+2]!r} expected {want[i:i+2]!r} ({len(got)} vs {len(want)} lines)"]
     if sub == "pw":
-        gp = f[2].split(",") if f[2] else []
+        gp = f[2].split(",") if len(f) > 2 and f[2] else []
         wp = [("r" if p is None else str(p)) for p in tree_parents(tree)]
         if gp != wp:
             i = next(i for i, (a, b) in enumerate(zip(gp, wp)) if a != b)
